@@ -46,11 +46,12 @@ PROPS = {
     "C10": {
         "title": "Packed k-mers behave as length-K strings",
         "kani": lambda tier: kfam(C10_FAMS, tier) + tables(["t_bits_to_ascii", "t_base_to_bits"]),
-        "verus": [],
+        "verus": [("kmertext", r"^(KmerText::fmt_debug_int|KmerText::fmt_debug_var|Kmer::to_string|bits_to_base)$")],
         "bounded": lambda tier: [],
         "design_ref": "DESIGN.md §6 C10",
-        "undecided": ["text rendering (to_string / Debug) - pending Verus unit"],
-        "level_text": "Every Mer/Kmer operation of each shipped k-mer type is proved equal to the same operation on the K-letter string for ALL storage values and all in-range arguments: Kani contract harnesses over a fully symbolic storage word, loop-free or K-bounded with unwinding assertions (complete, not sampled).",
+        "undecided": [],
+        "trust": ["Verus 0.2026.09.13 / Z3; extractor rules (verus/extract.py); R4: core::fmt renders a char / String as itself; the trait-level Mer/Kmer contract used by the text functions is the one Kani discharges per shipped type (families k_get, k_len)"],
+        "level_text": "Text rendering: the real default body of Kmer::to_string and the real bodies of Debug for IntKmer / VarIntKmer are proved, for every K and every value, to produce exactly the K letters of the k-mer (Verus unit kmertext, against the trait contract). Every Mer/Kmer operation of each shipped k-mer type is proved equal to the same operation on the K-letter string for ALL storage values and all in-range arguments: Kani contract harnesses over a fully symbolic storage word, loop-free or K-bounded with unwinding assertions (complete, not sampled).",
         "level_note": "Trusted: rustc->MIR, Kani/CBMC soundness. Preconditions (derived from call sites): bases < 4, from_u64(v) with v < 4^K, set_slice_mut with 1<=n<=32 and pos+n<=K. quick = 11 representative types, thorough = all 19.",
     },
     "C11": {
@@ -101,6 +102,7 @@ UNIT_FALLBACK = {
     "kmersfrom": [("verif::kmers::kmer5::k_kmers_from", "kmers_from_bytes/ascii on exactly K+3 bases")],
     "hashn": [("dna_string::verif::d_hashn_concrete", "from_acgt_bytes_hashn on eight concrete 8-byte reads")],
     "jsonlinks": [],
+    "kmertext": [],
     "groupkernel": [("filter::verif::f_count_filter", "<= 6 observations")],
     "prune": [("filter::verif::f_remove_censored_3", "remove_censored_exts on 3 Kmer4 entries"), ("filter::verif::f_remove_censored_sharded", "remove_censored_exts_sharded, 2 entries + 3 all_kmers")],
     "msppiece": [("msp::verif::m_msp_sequence_short", "msp_sequence on reads of exactly k = 3, and k - 1, bases")],
@@ -184,12 +186,11 @@ PROPS["C14"] = {
                              ("dna_string::verif::d_dna_eq_ord_hash_b1", "derived ==/cmp on strings of <= 32 bases")]
         + ([("dna_string::verif::d_dna_eq_ord_hash_b2", "derived ==/cmp/Hash on strings of <= 64 bases (2 words)")] if tier == "thorough" else []),
     "design_ref": "DESIGN.md §6 C14",
-    "undecided": ["Display for DnaString (`for v in self.iter()` over the crate's own iterator type inside a for-loop): bounded stand-in only",
-                  "PackedDnaStringSet::add is proved at the instance S = Vec<u8>, R = u8 of its generic item source (R21), for sequences of up to i32::MAX items (its counter `length` is an i32 by integer fallback)",
+    "undecided": ["PackedDnaStringSet::add is proved at the instance S = Vec<u8>, R = u8 of its generic item source (R21), for sequences of up to i32::MAX items (its counter `length` is an i32 by integer fallback)",
                   "derived Ord: word-level order fact complete (d_word_order); whole-string lexicographic law only as a bounded stand-in",
                   "derived ==/Hash: lemma_eq_iff_view proves (storage, len) equal <=> views equal on wf values for all lengths; that the derived impls compare/hash exactly (storage, len) is the derive semantics (assumed; cross-checked by the bounded stand-ins)"],
     "trust": VERUS_TRUST + [ADAPTER_NOTE],
-    "level_text": "Data-structure contract: every DnaString operation under contract (new, with_capacity, blank, push, extend, from_bytes, from_dna_string, from_acgt_bytes (scalar path and vector path steps), to_bytes, to_ascii_vec, reverse, rc, set_mut, get, len, is_empty, clear, push_bytes, iter/next, addr/get_by_addr/set_by_addr; PackedDnaStringSet::new/add/get/slice/len) is proved to preserve the representation invariant wf (exact word count, zero padding) and to transform the abstract base vector exactly as the plain-vector operation does, for all lengths (Verus, unbounded). ndiffs / hamming_distance are proved to count the differing positions of two equal-length strings for every length (padding contributes nothing by wf). History quantifier = induction over these per-operation contracts.",
+    "level_text": "Data-structure contract: every DnaString operation under contract (new, with_capacity, blank, push, extend, from_bytes, from_dna_string, from_acgt_bytes (scalar path and vector path steps), to_bytes, to_ascii_vec, Display, reverse, rc, set_mut, get, len, is_empty, clear, push_bytes, iter/next, addr/get_by_addr/set_by_addr; PackedDnaStringSet::new/add/get/slice/len) is proved to preserve the representation invariant wf (exact word count, zero padding) and to transform the abstract base vector exactly as the plain-vector operation does, for all lengths (Verus, unbounded). ndiffs / hamming_distance are proved to count the differing positions of two equal-length strings for every length (padding contributes nothing by wf). History quantifier = induction over these per-operation contracts.",
     "level_note": "Trusted: Verus/Z3, extractor rules, vstd Vec specs. See undecided_clauses for the operations that are not under an unbounded contract.",
 }
 
@@ -320,7 +321,7 @@ PROPS["C02"] = {
 PROPS["C03"] = {
     "title": "Extensions and edges denote exactly the real adjacencies, symmetrically",
     "kani": lambda tier: exts(EXTS_ALL) + kfam(["k_rc", "k_extend_left", "k_extend_right"], tier),
-    "verus": [("graphfn", r"^(DebruijnGraph::|Node::|BaseGraph::)|^lemma_(merged_shape|merged_windows|rc_first|rc_last|overlap_rc|rc_bases|ext_bases2)$"), ("nodesall", r"^Node::(l_edges|r_edges|edges)$"),
+    "verus": [("graphfn", r"^(DebruijnGraph::|Node::|BaseGraph::)|^lemma_(merged_shape|merged_windows|rc_first|rc_last|overlap_rc|rc_bases|ext_bases2|path_total_mono)$"), ("nodesall", r"^Node::(l_edges|r_edges|edges)$"),
               ("prune", r"^(remove_censored_exts_whole|remove_censored_exts_sharded_whole|pruned_exts|pruned_exts_sharded|lemma_search_table|lemma_search_list|lemma_table_has_keys)$"),
               ("maxpath", r"^commit_step$")],
     "bounded": lambda tier: [("filter::verif::f_remove_censored_3", "3 table entries, Kmer4, both strandedness values"),
@@ -329,7 +330,7 @@ PROPS["C03"] = {
     "undecided": [
         "set of resolvable edges == set of observed (K+1)-mers (needs the C05 kernel and C01)",
         "global symmetry u->v => v->u (a property of the constructed graph, not of one call)",
-        "max_path / max_path_beam (f32 scores, closures capturing closures, candidate scan over SmallVec edges) and sequence_of_path as wholes; of max_path the step that commits the chosen successor IS under contract (unit maxpath, rule R15: the successor is taken only if not yet used, is marked used and put on the proper end with the proper orientation - the step invariant behind 'no node repeated in a best path'); of sequence_of_path the body of its loop over the path IS under contract (graphfn::path_step, rule R15: one step appends the node's sequence - reverse complemented when traversed reversed - minus the K-1 bases overlapping the previous node), the loop header (enumerate + reference pattern) is not - the walk theorem is about the fold of that step",
+        "max_path / max_path_beam (f32 scores, closures capturing closures, candidate scan over SmallVec edges) as wholes; of max_path the step that commits the chosen successor IS under contract (unit maxpath, rule R15: the successor is taken only if not yet used, is marked used and put on the proper end with the proper orientation - the step invariant behind 'no node repeated in a best path'); sequence_of_path IS proved as a whole function - its result spells path_seq_of, the sequence the walk theorem is about - at the instance `path.iter()` over a Vec of entries of its generic item source (R21 instantiation; R20 / R17 desugar enumerate and the reference pattern); its loop body is additionally under contract on its own (graphfn::path_step)",
         "remove_censored_exts(_sharded) ARE under contract as whole functions (unit prune: every entry keeps key and payload and keeps an extension exactly when it had it and the target k-mer is a table key - sharded: or is not a k-mer of this shard at all), but only relative to the ASSUMED contracts of the two std binary searches and the hypothesis that the slices are sorted as those searches require (token keys_sorted; for the table: a function of its keys only)"],
     "trust": VERUS_TRUST + GRAPH_TRUST + [SEAM_NOTE,
         "std slice binary searches (binary_search_by_key, binary_search): on a slice sorted as the search requires they answer Ok exactly when an element with that key / value exists (assumed; sortedness is the callers' obligation, token keys_sorted); k-mers are equal exactly when they spell the same bases (axiom_kmer_eq; Kani family k_eq_ord)",
@@ -376,7 +377,7 @@ PROPS["C09"] = {
     "bounded": lambda tier: [],
     "design_ref": "DESIGN.md §6 C09",
     "undecided": [
-        "k-mer level: the output sequence of a node is DEFINED as what the proven step of sequence_of_path folds to over the node's path (path_seq_of; the loop header of sequence_of_path itself - enumerate + reference pattern - is assumed to apply that step in order), consecutive path entries are proved to overlap by K-1 bases, and lemma_merged_windows / lemma_ncompress_kmers prove that the output node then spells exactly the k-mers of its path's old nodes, entry by entry, nothing more; what is NOT stated as one formula is the multiset equality 'k-mers of the result == k-mers of the non-censored nodes' (it is the conjunction of that lemma with npartition_ok)",
+        "k-mer level: the output sequence of a node is DEFINED as what the proven step of sequence_of_path folds to over the node's path (path_seq_of; that the real sequence_of_path returns exactly this fold is proved in unit graphfn, at the slice-iterator instance of its generic item source - compress_graph calls it with `path.iter()` of a VecDeque), consecutive path entries are proved to overlap by K-1 bases, and lemma_merged_windows / lemma_ncompress_kmers prove that the output node then spells exactly the k-mers of its path's old nodes, entry by entry, nothing more; what is NOT stated as one formula is the multiset equality 'k-mers of the result == k-mers of the non-censored nodes' (it is the conjunction of that lemma with npartition_ok)",
         "maximality of the merged paths as a whole-run statement, idempotence, agreement with the direct route. Per merged node the link facts ARE part of build_node's contract (nbuild_post: every step of both walks was a link that find_link resolves to an available, non-palindromic, join-accepted node with a sole facing extension - nstep_ok -, and both walks stopped only where the node may not leave or the resolved link is not acceptable - nstop), but they are not lifted into the whole-run statement (orientation bookkeeping of the assembled path)",
         "BaseGraph::finish (parallel boomphf index construction) and the closing debug_assert!(is_compressed) are outside the Verus subset; the final fix_exts(None) is covered by fix_exts' own contract"],
     "trust": VERUS_TRUST + GRAPH_TRUST + [SEAM_NOTE],
@@ -420,13 +421,13 @@ FIX_COMMITS = ["fbab396", "2f3f16f", "a14fcdf", "43ef2dd", "faf6cb2"]
 PROPS["C19"] = {
     "title": "Index construction is schedule-independent and lookups are exact",
     "kani": lambda tier: [],
-    "verus": [("graphfn", r"^BaseGraph::(finish_serial_indices|finish_indices|lemma_index_ok|lemma_lookup_determined|len)$|^DebruijnGraph::(search_kmer|find_link|get_node|len)$|^PackedDnaStringSet::(get|len)$")],
+    "verus": [("graphfn", r"^BaseGraph::(finish_serial|finish|finish_serial_indices|finish_indices|lemma_index_ok|lemma_lookup_determined|len)$|^DebruijnGraph::(search_kmer|find_link|get_node|len)$|^PackedDnaStringSet::(get|len)$")],
     "bounded": lambda tier: [],
     "design_ref": "DESIGN.md §6 C19",
     "undecided": [
         "schedule independence and run-to-run determinism of the parallel builder: boomphf's BoomHashMap::new_parallel (rayon) is ASSUMED to return exactly the given (key, value) pairs in some slot order, like the serial BoomHashMap::new - that assumption IS the clause 'for every thread count and scheduling'; Kani has no threads and the MPHF construction is third-party code outside both verifiers",
         "'identical to the serially built one': proved for end lookups as the lemma lemma_lookup_determined (two graphs over the same nodes that both satisfy the index contract - finish() vs finish_serial(), or two runs - admit only identical search_kmer answers); for find_link / edge lists it follows from their contracts being functions of those lookups, not stated as a separate relational theorem; node order is that of BaseGraph and untouched by finish",
-        "the first statement of finish / finish_serial (`(0..n as u32).collect()`: iterator adapter) and the closing struct literal are outside the extracted statement range: `indices == [0, n)` is the wrapper's precondition",
+        "finish_serial and finish ARE proved as whole functions (the result is the same base graph with two indices, and is well formed); the one thing replaced is their first statement's `(0..n as u32).collect()`, a seam (R21) with the assumed meaning `0, 1, .., n-1 in order`; fewer than 2^32 nodes is a precondition (`n as u32`)",
         "graphs of >= 10^5 nodes, thread-pool sizes: nothing here depends on sizes (unbounded proof), but nothing here runs threads either"],
     "trust": VERUS_TRUST + GRAPH_TRUST + [SEAM_NOTE,
         "boomphf BoomHashMap::{new, new_parallel, get}: a finite map holding exactly the given pairs, with key-verified lookup (assumed; for new_parallel this includes schedule independence)"],
